@@ -1,7 +1,9 @@
 (* C13 - type annotations are well-formed and mean the same in every spelling.
    Statements only; proofs in proofs/TypeHintProofs.v.  The tree model (model/TypeHint.v) is tied to
    DataType.type_hint by differential execution on real DataType objects. *)
-From DMCG Require Import TypeHint TypeHintProofs.
+From DMCG Require Import TypeHint TypeHintProofs TypeDen.
+From Coq Require Import List.
+Import ListNotations.
 Open Scope N_scope.
 
 (* every annotation the printer can produce has balanced brackets, in all 8 spellings, for every hint
@@ -53,9 +55,26 @@ Example C13_container_spellings :
   /\ render {| uo := false; sc := false; gc := true |} t = of_string "Optional[Sequence[Union[int, str]]]".
 Proof. vm_compute. repeat split. Qed.
 
+(* "mean the same in every spelling", bounded: for each of the 12630 IR trees of the family in
+   model/TypeDen.v (two atoms and a reference, optional flags anywhere, list / dict containers, unions
+   of two or three members, nesting depth two) the annotation means the same - same container kinds,
+   same set of alternatives, same may-be-None - in all 8 spellings.  The unbounded statement is not
+   proved (the union branch dedupes on rendered text before None is stripped; see DESIGN 9.2). *)
+Theorem C13_same_meaning_bounded :
+  forallb same_in_all_spellings family = true /\ N.of_nat (List.length family) = 12630.
+Proof. vm_compute. split; reflexivity. Qed.
+(* the normal form does distinguish meanings: Optional[int] vs int, List[int] vs int *)
+Example C13_meaning_distinguishes :
+  hint_eqb (meaning {| uo := true; sc := false; gc := false |} (DT (Some sA) [] [] None true CNone))
+           (meaning {| uo := true; sc := false; gc := false |} (DT (Some sA) [] [] None false CNone)) = false
+  /\ hint_eqb (meaning {| uo := false; sc := true; gc := false |} (DT (Some sA) [] [] None false CList))
+              (meaning {| uo := false; sc := true; gc := false |} (DT (Some sA) [] [] None false CNone)) = false.
+Proof. vm_compute. split; reflexivity. Qed.
+
 Print Assumptions C13_brackets_balanced.
 Print Assumptions C13_remove_none_op.
 Print Assumptions C13_optional_keeps_alternatives_op.
 Print Assumptions C13_none_exactly_once_op.
 Print Assumptions C13_double_optional_refuted.
 Print Assumptions C13_none_thrice_refuted.
+Print Assumptions C13_same_meaning_bounded.
